@@ -70,6 +70,10 @@ func (db *GoMemDB) SetSync(key []byte, value []byte) error {
 // Delete 删除
 func (db *GoMemDB) Delete(key []byte) error {
 	err := db.db.Delete(key)
+	//删除不存在的key不是错误, 与leveldb保持一致
+	if err == memdb.ErrNotFound {
+		return nil
+	}
 	if err != nil {
 		llog.Error("Delete", "error", err)
 		return err
@@ -80,6 +84,10 @@ func (db *GoMemDB) Delete(key []byte) error {
 // DeleteSync 删除同步
 func (db *GoMemDB) DeleteSync(key []byte) error {
 	err := db.db.Delete(key)
+	//删除不存在的key不是错误, 与leveldb保持一致
+	if err == memdb.ErrNotFound {
+		return nil
+	}
 	if err != nil {
 		llog.Error("DeleteSync", "error", err)
 		return err
